@@ -125,6 +125,8 @@ func (u *executeUnit) prepareRun(r euReq) euResp {
 
 func (u *executeUnit) run(r euReq) euResp {
 	execution, err := u.runner.Runner.Run(u.ctx, r.app.Labels, u.runner.Pc, u.memory, u.runner.SequenceID)
+	// The forwarded value is consumed: a parsed program keeps no state of a run
+	u.runner.Runner.Forward(risc.Forward{})
 	if err != nil {
 		return euResp{err: err}
 	}
